@@ -120,10 +120,12 @@ def run_program(darsia, rng, tid, prog, shape, T, comps, timekind, h, omode, tab
     ev = [{"tid": tid, "op": "root", "shape": list(shape), "T": T, "comps": comps, "timekind": timekind, "dtype": dtype, "child": project(root, o, h, table)}]
     rootcopy = root.img.copy()
     cur = root
+    chain = []
     for op in prog:
         e = dict(op, tid=tid, raised=0)
         try:
             cur = apply_op(darsia, rng, cur, op, h, o, table)
+            chain.append(cur)
             e["child"] = project(cur, o, h, table)
             if type(cur).__name__ != cls_name:
                 e["child"]["scalar"] = -7  # class not preserved
@@ -136,6 +138,22 @@ def run_program(darsia, rng, tid, prog, shape, T, comps, timekind, h, omode, tab
         ev.append(e)
     if not np.array_equal(rootcopy, root.img):
         ev[0]["child"]["tags"] = [-1]
+    # the caller goes on working with the last extract - assembles a series from it, rebinds its data and placement - and
+    # then reads the images it was taken from again: they are what they were (the extract is an image of its own)
+    if chain and not ev[-1].get("raised"):
+        last = chain[-1]
+        try:
+            other = last.copy()
+            if not last._is_none(last.date):
+                shift = datetime.timedelta(days=400)
+                other.date = [d + shift for d in other.date] if isinstance(other.date, list) else other.date + shift
+            last.append(other, offset=1.0)
+        except Exception:   # appending is not the subject here
+            pass
+        last.img = np.zeros_like(last.img)
+        last.origin = [x + 1.0 for x in np.asarray(last.origin, dtype=float)]
+        for k, im in enumerate([root] + chain[:-1]):
+            ev.append({"tid": tid, "op": "again", "k": k + 1, "child": project(im, o, h, table)})
     return ev
 
 
